@@ -401,6 +401,11 @@ class Exec:
 
     def ev_IfExp(self, e, st):
         c = self.truth(self.ev(e.test, st), st)
+        cs = z3.simplify(c) if isinstance(c, z3.ExprRef) else c
+        if cs is True or (isinstance(cs, z3.ExprRef) and z3.is_true(cs)):
+            return self.ev(e.body, st)          # only the taken branch is evaluated
+        if cs is False or (isinstance(cs, z3.ExprRef) and z3.is_false(cs)):
+            return self.ev(e.orelse, st)
         st.guards.append(c); a = self.ev(e.body, st); st.guards.pop()
         st.guards.append(Not(c)); b = self.ev(e.orelse, st); st.guards.pop()
         if isinstance(a, z3.ExprRef) and isinstance(b, z3.ExprRef) and a.sort() == b.sort():
